@@ -65,10 +65,12 @@ let tok_of_pev = function
   | PIsProc (id, b) -> "I" ^ tok_of_n id ^ ":" ^ tok_of_bool b
   | PSusp b -> "U" ^ tok_of_bool b
   | PReq k -> "R" ^ tok_of_n k ^ ":7:11"
+  | PTerminated -> "X"
 
 let pev_of tok =
   let rest = String.sub tok 1 (String.length tok - 1) in
   match tok.[0] with
+  | 'X' -> PTerminated
   | 'D' -> PDone (bool_of_tok rest)
   | 'I' -> (match String.split_on_char ':' rest with
             | [i; b] -> PIsProc (n_of_tok i, bool_of_tok b) | _ -> failwith "bad I")
@@ -76,6 +78,135 @@ let pev_of tok =
   | 'R' -> (match String.split_on_char ':' rest with
             | k :: _ -> PReq (n_of_tok k) | _ -> failwith "bad R")
   | _ -> failwith "bad peer token"
+
+(* ---------- base leecher with its real loop (mode L): linearizability + trace validation ---------- *)
+type litem =
+  | LTick of string list                              (* callback tokens (without the t: prefix) *)
+  | LApi of string * string list * string * int * bool
+      (* op name, callback tokens, return token, position of the return marker, floats (no callback) *)
+
+let starts_with pre s = String.length s >= String.length pre && String.sub s 0 (String.length pre) = pre
+let drop k s = String.sub s k (String.length s - k)
+
+(* split the raw log into items (position of the first callback, item); [atomic] is false when a
+   callback of an API call falls inside an unfinished ticker Routine *)
+let loop_items toks =
+  let atomic = ref true in
+  (* ticker Routine being read: 0 none, 1 after the first O, 2 after the second O = 0 (expects C),
+     3 after C>0 (expects S) *)
+  let tstate = ref 0 and tcur = ref [] in
+  let items = ref [] in
+  let pos = ref 0 in
+  let tick_start = ref 0 in
+  let close_tick () = if !tcur <> [] then items := (!tick_start, LTick (List.rev !tcur)) :: !items;
+    tcur := []; tstate := 0 in
+  let api_open = ref None in           (* name, start position, callbacks, first callback position *)
+  List.iter (fun t ->
+    incr pos;
+    if starts_with "t:" t then begin
+      let c = drop 2 t in
+      (match !tstate, c.[0] with
+       | 0, 'O' -> tick_start := !pos; tcur := [c]; if false then () else tstate := 1
+       | 1, 'H' | 1, 'T' -> tcur := c :: !tcur
+       | 1, 'O' -> tcur := c :: !tcur; if c = "O1" then close_tick () else tstate := 2
+       | 2, 'C' -> tcur := c :: !tcur; if c = "C0" then close_tick () else tstate := 3
+       | 3, 'S' -> tcur := c :: !tcur; close_tick ()
+       | _, _ -> atomic := false; tcur := c :: !tcur)
+    end else if starts_with "a:" t then begin
+      if !tstate <> 0 then atomic := false;
+      (match !api_open with
+       | Some (n, p0, cbs, fp) -> api_open := Some (n, p0, drop 2 t :: cbs, (if fp = 0 then !pos else fp))
+       | None -> atomic := false)
+    end else if t.[0] = '>' then api_open := Some (drop 1 t, !pos, [], 0)
+    else if t = "PANIC" then
+      (match !api_open with Some (n, p0, cbs, fp) -> api_open := Some (n, p0, "PANIC" :: cbs, fp) | None -> ())
+    else if t.[0] = '<' then
+      (match !api_open with
+       | Some (n, p0, cbs, fp) ->
+         let key = if fp <> 0 then fp else p0 in
+         items := (key, LApi (n, List.rev cbs, t, !pos, fp = 0)) :: !items;
+         api_open := None
+       | None -> atomic := false)
+  ) toks;
+  if !tstate <> 0 then close_tick ();
+  (List.sort (fun (a, _) (b, _) -> compare a b) !items, !atomic)
+
+(* an op without callbacks takes effect somewhere between its two markers: it may be linearized
+   after any ticker Routine that started before its return marker: enumerate *)
+let rec linearizations items =
+  match items with
+  | [] -> [[]]
+  | ((_, LApi (_, _, _, endpos, true)) as it) :: rest ->
+    let rec places pre rest =
+      (List.map (fun l -> List.rev_append pre (it :: l)) (linearizations rest)) @
+      (match rest with
+       | (((p, LTick _) as tk) :: r) when p < endpos -> places (tk :: pre) r
+       | _ -> []) in
+    places [] rest
+  | it :: rest -> List.map (fun l -> it :: l) (linearizations rest)
+
+let eval_loop obs =
+  let toks = List.filter (fun t -> t <> "E") obs in
+  let (items, atomic) = loop_items toks in
+  let cands = (try linearizations items with _ -> []) in
+  let cands = (match cands with [] -> [items] | l -> if List.length l > 512 then [List.hd l] else l) in
+  let events_of cbs = List.filter_map (fun c -> match c.[0] with
+      | 'S' | 'T' -> Some (bev_of c) | _ -> if c = "PANIC" then Some EPanic else None) cbs in
+  let choice_of cbs = (match List.find_opt (fun c -> c.[0] = 'S') cbs with
+      | Some c -> (match bev_of c with
+          | EStart (p, cs) -> let rec idx i = function [] -> 0 | x :: r -> if x = p then i else idx (i + 1) r in idx 0 cs
+          | _ -> 0)
+      | None -> 0) in
+  let op_of = function
+    | LTick cbs -> BTick (List.mem "H1" cbs, nat_of_int (choice_of cbs))
+    | LApi (n, cbs, _, _, _) ->
+      (match n.[0] with
+       | 'r' -> BReg (n_of_tok (drop 1 n))
+       | 'u' -> BUnreg (n_of_tok (drop 1 n), nat_of_int (choice_of cbs))
+       | _ -> BTerminate) in
+  let cbs_of = function LTick c | LApi (_, c, _, _, _) -> c in
+  (* the state observed at a return marker is the state after everything that started before the
+     marker: return checks are deferred until the linearization passes the marker's position *)
+  let run_checks state_tok step init lin =
+    let rec flush s p pend = (match pend with
+        | (ret, e) :: r when e < p -> state_tok s = ret && flush s p r
+        | _ -> true)
+    and drop_flushed p pend = List.filter (fun (_, e) -> e >= p) pend in
+    let rec go s pend = function
+      | [] -> List.for_all (fun (ret, _) -> state_tok s = ret) pend
+      | (p, it) :: r ->
+        flush s p pend &&
+        (let pend = drop_flushed p pend in
+         match step s it with
+         | None -> false
+         | Some s' ->
+           let pend = (match it with LApi (_, _, ret, e, _) -> pend @ [(ret, e)] | LTick _ -> pend) in
+           go s' pend r) in
+    go init [] lin in
+  (* 1. against the model: callbacks of every item, session variable and PeersNum at the markers *)
+  let replay lin =
+    run_checks
+      (fun s -> "<s" ^ (match s.b_sess with Some p -> tok_of_n p | None -> "-") ^ "n" ^ string_of_int (List.length s.b_peers))
+      (fun s it -> let (s', evs) = bstep s (op_of it) in if evs = events_of (cbs_of it) then Some s' else None)
+      b_init lin in
+  (* 2. against the specification: the monitor accepts the linearized log, and the session the
+        callbacks leave running is the one observed at the markers *)
+  let monitor lin =
+    let log = List.map (fun (_, it) -> (op_of it, events_of (cbs_of it))) lin in
+    let sess_of ret = let i = String.index ret 'n' in String.sub ret 2 (i - 2) in
+    base_spec_ok log &&
+    run_checks (fun run -> run)
+      (fun run it -> Some (List.fold_left (fun acc c -> match c.[0] with
+           | 'S' -> (match bev_of c with EStart (p, _) -> tok_of_n p | _ -> acc)
+           | 'T' -> "-" | _ -> acc) run (cbs_of it)))
+      "-" (List.map (fun (p, it) -> (p, (match it with
+          | LApi (n, c, ret, e, f) -> LApi (n, c, sess_of ret, e, f) | t -> t))) lin) in
+  let explained = atomic && List.exists replay cands in
+  let spec = atomic && List.exists monitor cands in
+  { default_verdict with
+    model_obs = (if explained then obs else ["NO-LINEARIZATION-MATCHES-THE-MODEL"]);
+    spec_ok = Some spec; model_spec_ok = true;
+    nontrivial = List.exists (function (_, LTick cbs) -> List.exists (fun c -> c.[0] = 'S') cbs | _ -> false) items }
 
 let eval inp obs =
   let header, ops = groups inp in
@@ -122,10 +253,10 @@ let eval inp obs =
         ((bool_of_tok d, bool_of_tok s), ids) :: script (k - 1) r
       | _ -> failwith "short script" in
     let sc = script (int_of_string nruns) rest in
-    (* split the implementation's log into routine runs *)
+    (* split the implementation's log into routine runs and X markers (external Terminate) *)
     let toks = List.filter (fun t -> t <> "E") obs in
     let runs = List.fold_left (fun acc t -> match acc with
-        | cur :: more when t.[0] <> 'D' -> (t :: cur) :: more
+        | cur :: more when t.[0] <> 'D' && t <> "X" && cur <> ["X"] -> (t :: cur) :: more
         | _ -> [t] :: acc) [] toks in
     let runs = List.rev_map List.rev runs in
     let op_of t = (* I<id>#<op>:<b> *)
@@ -136,24 +267,40 @@ let eval inp obs =
       | _ -> None in
     let seen = ref (-1) and fifo_ok = ref true in
     let events = List.map (fun run ->
+        if run = ["X"] then PTerminate else
         let fresh = List.filter_map (fun t -> match op_of t with
             | Some (op, id) when op > !seen -> Some (op, id) | _ -> None) run in
         match fresh with
         | [] -> PTick
         | [(op, id)] -> if op <> !seen + 1 then fifo_ok := false; seen := op; PChunk (n_of_z (Z.of_int (op * 16 + id)))
         | _ -> fifo_ok := false; PTick) runs in
-    let (_, log) = prun par (script_oracle sc) p_init events in
+    (* a routine run that passed the d.done guard just before Terminate() may log after X:
+       also try every X moved behind the run that follows it *)
+    let rec swaps = function
+      | PTerminate :: e :: r when e <> PTerminate ->
+        List.map (fun t -> PTerminate :: t) (swaps (e :: r)) @ List.map (fun t -> e :: PTerminate :: t) (swaps r)
+      | e :: r -> List.map (fun t -> e :: t) (swaps r)
+      | [] -> [[]] in
+    let cands = swaps events in
     let tok_t = function
       | PIsProc (id, b) -> let i = Z.to_int (z_of_n id) in Printf.sprintf "I%d#%d:%s" (i mod 16) (i / 16) (tok_of_bool b)
       | e -> tok_of_pev e in
-    let mo = List.map tok_t log @ ["E"] in
+    let noX l = List.filter (fun t -> t <> "X") l in
+    let log_of evs = snd (prun par (script_oracle sc) p_init evs) in
+    let good = List.filter (fun evs -> noX (List.map tok_t (log_of evs)) = noX toks) cands in
+    let log = (match good with evs :: _ -> log_of evs | [] -> log_of events) in
+    let mo = (if good <> [] then obs else List.map tok_t log @ ["E"]) in
     let strip t = match String.index_opt t '#' with
       | Some i when t.[0] = 'I' -> String.sub t 0 i ^ String.sub t (String.index t ':') (String.length t - String.index t ':')
       | _ -> t in
     let impl_log = (try Some (List.map (fun t -> pev_of (strip t)) toks) with _ -> None) in
-    let spec = (match impl_log with Some l -> peer_spec_ok par l && !fifo_ok | None -> false) in
+    let spec =
+      if good <> [] then peer_spec_ok par log && !fifo_ok
+      else (* no schedule of the model explains the log: the monitor judges the log as it is *)
+        (match impl_log with Some l -> peer_spec_ok par l && !fifo_ok | None -> false) in
     { default_verdict with model_obs = mo; spec_ok = Some spec; model_spec_ok = peer_spec_ok par log;
       nontrivial = List.exists (fun e -> e = PTick) events && List.exists (function PReq _ -> true | _ -> false) log }
+  | "L" :: _ -> eval_loop obs
   | _ -> failwith "bad case"
 
 let () = run eval
